@@ -49,6 +49,12 @@ class C09(core.Check):
             ("remotertls", True, [("tx", b"hello"), ("svc",), ("svc",)], [("acc", 2), ("f", T.SSLEOF)], [("d", b"abc"), ("f", T.SSLEOF)]),
             ("remotertls", False, [("tx", b"hello world"), ("ss",)] + [("ss",)] * 12, [("acc", 1)] * 14, []),
             ("client", True, [("tx", b"a" * 100), ("ss",), ("tx", b"b" * 100), ("ss",), ("ss",)], [("acc", 150), ("acc", 10), ("acc", 1000)], []),
+            # a backlog larger than .bs, a short send, then room again at the very next send
+            ("remoter", True, [("tx", bytes(range(100))), ("ss",), ("ss",), ("ss",), ("ss",)], [("acc", 5), ("acc", 1 << 30), ("acc", 1 << 30), ("acc", 1 << 30)], [], 16),
+            ("remotertls", True, [("tx", bytes(i % 251 for i in range(20000))), ("svc",), ("svc",), ("svc",), ("svc",)],
+             [("acc", 8096), ("acc", 1000), ("acc", 1 << 30), ("acc", 1 << 30), ("acc", 1 << 30)], []),
+            ("client", True, [("tx", bytes(range(60))), ("tx", bytes(range(60, 100))), ("svc",), ("svc",), ("svc",)], [("acc", 16), ("acc", 3), ("acc", 1 << 30), ("acc", 1 << 30)], [], 16),
+            ("clienttls", False, [("tx", bytes(range(40))), ("ss",), ("ss",), ("ss",)], [("acc", 4), ("acc", 1), ("acc", 1 << 30), ("acc", 1 << 30)], [], 4),
             # data, then the peer resets between passes: the bytes must still arrive and be logged
             ("client", True, [("sr",), ("rst",), ("svc",), ("svc",)], [], [("d", b"ab"), ("f", e), ("d", b"cd"), ("f", 104)]),
             ("remoter", True, [("tx", b"xyz"), ("rst",), ("svc",), ("svc",)], [("acc", 1), ("acc", 5)], [("d", b"q")]),
@@ -58,8 +64,26 @@ class C09(core.Check):
 
     def generate(self, rng, n, tier):
         yield from self._real_cases(rng, 6 if tier == "quick" else 150, tier == "thorough")
-        for _ in range(n):
+        for i in range(n):
             kind = rng.choice(T.KINDS)
+            if i % 5 == 0:
+                # backlog larger than the object's .bs, a short send on an early slice, then the socket accepts again at once
+                bs = rng.choice([4, 8, 16, 64, 64, None])
+                unit = bs or 8096
+                total = unit * rng.randrange(2, 6) + rng.randrange(0, unit)
+                cuts = sorted(rng.sample(range(1, total), k=rng.choice([0, 0, 1, 2])))
+                data = bytes((j * 7 + 3) % 251 for j in range(total))
+                ops = [("tx", data[a:b]) for a, b in zip([0] + cuts, cuts + [total])]
+                if rng.random() < 0.3:
+                    ops.insert(rng.randrange(1, len(ops) + 1), (rng.choice(["ss", "svc"]),))
+                sends = [("acc", unit)] * rng.choice([0, 0, 1, 2]) + [("acc", rng.randrange(1, unit))]
+                if rng.random() < 0.3:
+                    sends.append(("f", T.wouldblock_codes(kind)[0]))
+                sends += [("acc", rng.choice([1 << 30, 1 << 30, unit, rng.randrange(1, unit)])) for _ in range(rng.randrange(2, 8))]
+                ops += [(rng.choice(["ss", "svc"]),) for _ in range(rng.randrange(2, 8))]
+                case = (kind, rng.random() < 0.8, ops, sends, [])
+                yield case if bs is None else case + (bs,)
+                continue
             mode = rng.random()
             healthy = mode < 0.3
             ops = []
@@ -112,7 +136,7 @@ class C09(core.Check):
     def request(self, case):
         if case[0] == "real":
             return ("noop",)
-        kind, wl, ops, sends, recvs = case
+        kind, wl, ops, sends, recvs = case[:5]
         return ("conn", kind, bool(wl), [tuple(o) for o in ops], [tuple(s) for s in sends], [tuple(r) for r in recvs])
 
     def run_impl(self, case):
@@ -148,7 +172,7 @@ class C09(core.Check):
                 if not wrx:
                     bad.append("wirelog-rx")
             return bad
-        kind, wl, ops, sends, recvs = case
+        kind, wl, ops, sends, recvs = case[:5]
         steps, (txbs, rxbs, kacc, kdel, wtx, wrx, cutoff) = obs
         bad = []
         sofar = 0
@@ -199,7 +223,7 @@ class C09(core.Check):
     def nontrivial(self, case, obs):
         if case[0] == "real":
             return obs[5] > 20000
-        kind, wl, ops, sends, recvs = case
+        kind, wl, ops, sends, recvs = case[:5]
         steps = obs[0]
         ntx = sum(1 for o in ops if o[0] == "tx" and o[1])
         nrx = sum(1 for r in recvs if r[0] == "d" and r[1])
@@ -210,8 +234,13 @@ class C09(core.Check):
     def features(self, case, obs):
         if case[0] == "real":
             return ["real-loopback", "real:" + ("tls" if case[1] else "plain"), "real:" + case[2], "real-bytes:" + ("<100k" if obs[5] < 100000 else ">=100k")]
-        kind, wl, ops, sends, recvs = case
+        kind, wl, ops, sends, recvs = case[:5]
         f = [kind, "wl" if wl else "nowl", f"ntx={min(4, sum(1 for o in ops if o[0] == 'tx'))}"]
+        bsz = case[5] if len(case) > 5 else 8096
+        if len(_payload(ops)) > bsz:
+            f.append("backlog>bs")
+            if any(s_[0] == "acc" and 0 < s_[1] < bsz for s_ in sends):
+                f.append("backlog>bs:short-send")
         pay = len(_payload(ops))
         f.append("payload:" + ("0" if pay == 0 else "<64" if pay < 64 else "<4096" if pay < 4096 else ">=4096"))
         for s in sends:
@@ -233,12 +262,16 @@ class C09(core.Check):
         return f
 
     def shrink(self, case):
+        if case[0] != "real" and len(case) > 5:
+            for c in self.shrink(case[:5]):
+                yield c + (case[5],)
+            return
         if case[0] == "real":
             _, tls, d, sizes, sb, re_, seed = case
             for i in range(len(sizes)):
                 yield ("real", tls, d, sizes[:i] + sizes[i + 1:], sb, re_, seed)
             return
-        kind, wl, ops, sends, recvs = case
+        kind, wl, ops, sends, recvs = case[:5]
         for i in range(len(ops)):
             yield (kind, wl, ops[:i] + ops[i + 1:], sends, recvs)
         for i in range(len(sends)):
@@ -252,7 +285,9 @@ class C09(core.Check):
     def mutate(self, rng, case):
         if case[0] == "real":
             return []
-        kind, wl, ops, sends, recvs = case
+        if len(case) > 5:
+            return [c + (case[5],) for c in self.mutate(rng, case[:5])] + [case[:5]]
+        kind, wl, ops, sends, recvs = case[:5]
         out = list(self.shrink(case))[:30]
         for k in T.KINDS:
             if k != kind:
